@@ -1,5 +1,6 @@
 (** C31, identifier half — hand model of hail/python/hail/utils/misc.py: upper_hex / escape_str / escape_id /
-    parsable_strings (the functions hail/ir/*.py use to print names and string literals into the IR text), and the
+    parsable_strings (the functions hail/ir/*.py use to print names and string literals into the IR text) AS REPAIRED by
+    fixes/C31-astral.diff and fixes/C31-bare-ascii.diff, and the
     statement "the engine's lexer (model, Lexer.v) reads what escape_id emits back as the same name".
     Executable definitions only.  The model REGENERATED from the source is HailG.C31.GenId; IdLemmas.v proves it equal
     to the definitions below (a semantic edit of the source breaks those lemmas). *)
@@ -24,9 +25,14 @@ Definition hex_ndigits (n : N) : nat := S (N.to_nat (N.log2 n / 4)).
 Definition upper_hex (n : N) (num_digits : option nat) : name :=
   hex_fixed_up (Nat.max (hex_ndigits n) (match num_digits with None => 1%nat | Some k => k end)) n.
 
-(** ** escape_str, one character *)
+(** ** escape_str, one character (the code WITH fixes/C31-astral.diff: a code point above U+FFFF is written as the two
+    4-digit escapes of its UTF-16 surrogate pair, as Java's escapeJava does) *)
+Definition surr_hi (c : N) : N := 55296 + N.shiftr (c - 65536) 10.
+Definition surr_lo (c : N) : N := 56320 + N.land (c - 65536) 1023.
+
 Definition esc_str_char (backticked : bool) (c : N) : name :=
-  if 127 <? c then 92 :: 117 :: upper_hex c (Some 4%nat)                  (* \u + at least 4 hex digits *)
+  if 65535 <? c then (92 :: 117 :: upper_hex (surr_hi c) (Some 4%nat)) ++ (92 :: 117 :: upper_hex (surr_lo c) (Some 4%nat))
+  else if 127 <? c then 92 :: 117 :: upper_hex c (Some 4%nat)                  (* \u + 4 hex digits *)
   else if c <? 32 then
     if c =? 8 then [92; 98] else if c =? 10 then [92; 110] else if c =? 9 then [92; 116]
     else if c =? 12 then [92; 102] else if c =? 13 then [92; 114]
@@ -38,65 +44,78 @@ Definition esc_str_char (backticked : bool) (c : N) : name :=
 
 Definition esc_str (backticked : bool) (s : name) : name := flat_map (esc_str_char backticked) s.
 
+(** [escape_id]'s test (the code WITH fixes/C31-bare-ascii.diff): re.fullmatch(r'[_a-zA-Z][_a-zA-Z0-9]*', s) *)
+Definition id_start (c : N) : bool := ((65 <=? c) && (c <=? 90)) || (c =? 95) || ((97 <=? c) && (c <=? 122)).
+Definition id_part (c : N) : bool := id_start c || ((48 <=? c) && (c <=? 57)).
+Definition is_bare_ascii (s : name) : bool :=
+  match s with c :: r => id_start c && forallb id_part r | [] => false end.
+
+Definition escape_id (s : name) : name := if is_bare_ascii s then s else 96 :: esc_str true s ++ [96].
+
+(** Unicode scalar values: code points that are not surrogates.  A Python str can also hold lone surrogates; such a str
+    cannot be encoded as UTF-8 to be sent to the engine and [utf16] is not injective on them — they are OUTSIDE the
+    statements below. *)
+Definition is_scalar (c : N) : bool := (c <? 55296) || ((57344 <=? c) && (c <? 1114112)).
+Definition scalar_name (n : name) : bool := forallb is_scalar n.
+
+(** ** string literals: IRLexer.stringLiteral = quotedLiteral(double quote) | quotedLiteral(apostrophe) *)
+Fixpoint quoted_raw_d (delim : N) (s : name) : option (name * name) :=
+  match s with
+  | [] => None
+  | c :: r =>
+    if c =? delim then Some ([], r)
+    else if c =? 92 then
+      match r with
+      | d :: r' =>
+        if existsb (N.eqb d) escape_chars then
+          match quoted_raw_d delim r' with Some (b, rest) => Some (c :: d :: b, rest) | None => None end
+        else None
+      | [] => None
+      end
+    else match quoted_raw_d delim r with Some (b, rest) => Some (c :: b, rest) | None => None end
+  end.
+
+Definition lex_string (s : name) : option (name * name) :=
+  match s with
+  | c :: r =>
+    if (c =? 34) || (c =? 39) then
+      match quoted_raw_d c r with
+      | Some (raw, rest) =>
+          match unescape_string (S (length raw)) raw with Some v => Some (v, rest) | None => None end
+      | None => None
+      end
+    else None
+  | [] => None
+  end.
+
+(** the string literal the front end emits for [s] (one element of parsable_strings, hail.ir.Str) *)
+Definition str_literal (s : name) : name := 34 :: esc_str false s ++ [34].
+(** the engine's String is a sequence of UTF-16 code units: reading the literal back gives [utf16 s] *)
+Definition engine_reads_str (s : name) (rest : name) : Prop :=
+  lex_string (utf16 (str_literal s) ++ rest) = Some (utf16 s, rest).
+
 Section Id.
   Variable java_start_hi : N -> bool.
   Variable java_part_hi : N -> bool.
-  Variable uni_word : N -> bool.
 
-  (** [escape_id]: re.fullmatch(r'[_a-zA-Z]\w*', s) is [Model.is_bare] (the same language as escape_parsable's
-      [_a-zA-Z][\w_]*; proved against the generated regex in IdLemmas.generated_regex_iff) *)
-  Definition escape_id (s : name) : name :=
-    if is_bare uni_word s then s else 96 :: esc_str true s ++ [96].
-
-  (** the engine reads what the front end emits for the name [n] as exactly [n] (one identifier token, lexing stops
-      at the delimiter that follows) *)
+  (** the engine reads what the front end emits for the name [n] as exactly [n] — as a Java String, i.e. the UTF-16 code
+      units of [n] — one identifier token, lexing stops at the delimiter that follows *)
   Definition engine_reads_id (n : name) (delim : N) (rest : name) : Prop :=
     lex_identifier java_start_hi java_part_hi (utf16 (escape_id n) ++ delim :: rest) = Some (utf16 n, delim :: rest).
-
-  (** names for which this is proved: bare names made of Java identifier characters, and every quoted name inside
-      the Basic Multilingual Plane *)
-  Definition id_engine_safe (n : name) : bool :=
-    if is_bare uni_word n then forallb (java_part java_part_hi) (utf16 (tl n)) else forallb (fun c => c <? 65536) n.
-
-  (** ** string literals: IRLexer.stringLiteral = quotedLiteral(double quote) | quotedLiteral(apostrophe) *)
-  Fixpoint quoted_raw_d (delim : N) (s : name) : option (name * name) :=
-    match s with
-    | [] => None
-    | c :: r =>
-      if c =? delim then Some ([], r)
-      else if c =? 92 then
-        match r with
-        | d :: r' =>
-          if existsb (N.eqb d) escape_chars then
-            match quoted_raw_d delim r' with Some (b, rest) => Some (c :: d :: b, rest) | None => None end
-          else None
-        | [] => None
-        end
-      else match quoted_raw_d delim r with Some (b, rest) => Some (c :: b, rest) | None => None end
-    end.
-
-  Definition lex_string (s : name) : option (name * name) :=
-    match s with
-    | c :: r =>
-      if (c =? 34) || (c =? 39) then
-        match quoted_raw_d c r with
-        | Some (raw, rest) =>
-            match unescape_string (S (length raw)) raw with Some v => Some (v, rest) | None => None end
-        | None => None
-        end
-      else None
-    | [] => None
-    end.
-
-  (** the string literal the front end emits for [s] (one element of parsable_strings, hail.ir.Str) *)
-  Definition str_literal (s : name) : name := 34 :: esc_str false s ++ [34].
-  Definition engine_reads_str (s : name) (rest : name) : Prop :=
-    lex_string (utf16 (str_literal s) ++ rest) = Some (utf16 s, rest).
 End Id.
 
-(** The property as stated (C31, engine half, identifiers printed through escape_id) for ALL names — FALSE on the unchanged
-    code (Props_C31: C31_escape_id_engine_refuted); what holds is IdLemmas.engine_reads_id_safe. *)
-Definition engine_accepts_all_ids (java_start_hi java_part_hi uni_word : N -> bool) : Prop :=
+(** The property as stated (C31, engine half, identifiers printed through escape_id) for ALL names of Unicode scalar values —
+    it HOLDS for the fixed code (IdLemmas.engine_reads_id_all, Props_C31.C31_escape_id_engine_accepts). *)
+Definition engine_accepts_all_ids (java_start_hi java_part_hi : N -> bool) : Prop :=
   forall (n : name) (delim : N) (rest : name),
-    forallb (fun c => c <? 1114112) n = true -> java_part java_part_hi delim = false ->
-    engine_reads_id java_start_hi java_part_hi uni_word n delim rest.
+    scalar_name n = true -> java_part java_part_hi delim = false ->
+    engine_reads_id java_start_hi java_part_hi n delim rest.
+
+(** ** the functions BEFORE the two fixes (hand definitions of the previous source text, kept to state what was wrong):
+    every character above U+007F written as backslash-u + upper_hex(c, 4) — five or six digits above U+FFFF —, and the
+    bare-name test [_a-zA-Z]\w* with Python's Unicode \w ([Model.is_bare]) *)
+Definition esc_str_char_unfixed (backticked : bool) (c : N) : name :=
+  if 127 <? c then 92 :: 117 :: upper_hex c (Some 4%nat) else esc_str_char backticked c.
+Definition escape_id_unfixed (uni_word : N -> bool) (s : name) : name :=
+  if is_bare uni_word s then s else 96 :: flat_map (esc_str_char_unfixed true) s ++ [96].
+Definition str_literal_unfixed (s : name) : name := 34 :: flat_map (esc_str_char_unfixed false) s ++ [34].
